@@ -23,7 +23,7 @@ def theorems_in(path, module):
         if m and stack and stack[-1] == m.group(1):
             stack.pop()
             continue
-        m = re.match(r"\s*(?:@\[[^\]]*\]\s*)?(private\s+|protected\s+)?theorem\s+([\w\.']+)", ln)
+        m = re.match(r"\s*(?:@\[[^\]]*\]\s*)?(private\s+|protected\s+)?theorem\s+([\w\.'?!]+)", ln)
         if m and not (m.group(1) or "").startswith("private"):
             out.append({"name": ".".join(stack + [m.group(2)]), "module": module})
     return out
